@@ -832,11 +832,34 @@ func replayMain(c *Check, env *Env, opts RunOpts, base string) int {
 		return 1
 	}
 	if len(agg.Violations) > 0 {
+		// the same attribution as in a full run: a violation covered by a listed finding is reported as such
+		findings := LoadFindings(c.ID)
+		unlisted := 0
+		named := map[string]bool{}
 		for _, v := range agg.Violations {
+			var hit *Finding
+			for i := range findings {
+				if findings[i].Status == "open" && findings[i].matches(&v.V) {
+					hit = &findings[i]
+					break
+				}
+			}
+			if hit != nil {
+				fmt.Printf("replay: kind=%s [listed finding %s] %s\n", v.V.Kind, hit.ID, v.V.Detail)
+				if !named[hit.ID] {
+					named[hit.ID] = true
+					fmt.Printf("KNOWN-FINDING: property=%s %s: %s\n", c.ID, hit.ID, hit.What)
+				}
+				continue
+			}
+			unlisted++
 			fmt.Printf("replay: kind=%s %s\n", v.V.Kind, v.V.Detail)
 		}
-		fmt.Printf("VIOLATION property=%s replay=%s\n", c.ID, opts.Replay)
-		return 1
+		if unlisted > 0 {
+			fmt.Printf("VIOLATION property=%s replay=%s\n", c.ID, opts.Replay)
+			return 1
+		}
+		return 0
 	}
 	_ = err
 	fmt.Println("replay: the case held this time")
